@@ -11,7 +11,7 @@ def region(r, low=False):
 
 def placement_suite(r, prefix, tier="quick"):
     """one history per kind of target placement: every arena mode that does not need the window reserved, plus the deterministic-trampoline ones"""
-    modes = ["cet"] * 3 + ["mass70", "fake31", "fake32", "fake32"] + ["page0"] * 3 + ["foreign_lo"] * 2 + ["packed"] * 3 + ["neigh"] * 2 + ["straddle"] * 2 + ["low"] * 2 + ["alias"] * 3 + ["hole_lo", "hole_hi", "hole", "edge"] + [f"align{k}" for k in (1, 2, 3, 5, 7, 8, 9, 13, 15)]
+    modes = ["cet"] * 3 + ["mass70", "fake31", "fake32", "fake32"] + ["lastpage"] * 2 + ["tight"] * 2 + ["page0"] * 3 + ["foreign_lo"] * 2 + ["packed"] * 3 + ["neigh"] * 2 + ["straddle"] * 2 + ["low"] * 2 + ["alias"] * 3 + ["hole_lo", "hole_hi", "hole", "edge"] + [f"align{k}" for k in (1, 2, 3, 5, 7, 8, 9, 13, 15)]
     if tier == "thorough": modes = modes * 8
     return [gen(r, f"{prefix}{i}", mode=m) for i, m in enumerate(modes)]
 
@@ -33,6 +33,25 @@ def gen(r, hid, mode=None, max_lifetimes=2):
         names = [f"t0@{t:x}", f"t1@{t + 8:x}", f"t2@{t + 16:x}"]
         order = r.sample(["t0", "t1", "t2"], 3)
         if mode == "packedbool": ops = [x for n in order[:2] for x in (f"I:{n}:bool:{r.randint(0, 1)}", "C:t0", "C:t1", "C:t2")] + [f"I:{order[0]}:bool:{r.randint(0, 1)}", "C:t0", "C:t1"]
+        else: ops = [x for n in order[:2] for x in (f"I:{n}:{r.choice(['raw', 'clo'])}:{r.randint(0, 3)}", "C:t0", "C:t1", "C:t2")]
+        lts = [ops]
+        return f"{hid} {','.join(decl + names + ['fk0', 'fk1', 'fk2', 'fk3'])} " + "|".join(",".join(o) for o in lts), lts
+    if mode == "lastpage":
+        # a 5-byte function that ENDS exactly on a page boundary, in the last page of its mapping (run-time generated code): the page after it is
+        # not mapped, and nothing the library does for this function may need it
+        B = region(r); t = B + PAGE - 5
+        decl = [f"A={B:x}/1", f"H={t:x}/2a", f"F={t - 16:x}/aaa1", "S"]
+        names = [f"t0@{t:x}", f"n0@{t - 16:x}"]
+        lts = [[f"I:t0:{r.choice(['raw', 'clo', 'unc'])}:{r.randint(0, 3)}", "C:t0", "C:n0"], [f"I:t0:raw:{r.randint(0, 3)}", "C:t0", f"I:n0:clo:{r.randint(0, 3)}", "C:n0"], [f"I:t0:fake:{r.randint(0, 3)}"]]
+        return f"{hid} {','.join(decl + names + ['fk0', 'fk1', 'fk2', 'fk3'])} " + "|".join(",".join(o) for o in lts), lts
+    if mode in ("tight", "tightbool"):
+        # 6-byte functions with NO padding between them (hand-written assembly, -Os objects): whatever is written at an entry must stay inside
+        # the 5 bytes the entry patch needs, for executing fakes and for forced booleans alike
+        B = region(r); off = r.choice([0, 60, 1002, 4096 - 15, 4096 - 9]); t = B + off
+        decl = [f"A={B:x}/2", f"F={t:x}/1", f"F={t + 6:x}/0", f"F={t + 12:x}/1", "S"]
+        names = [f"t0@{t:x}", f"t1@{t + 6:x}", f"t2@{t + 12:x}"]
+        order = r.sample(["t0", "t1", "t2"], 3)
+        if mode == "tightbool": ops = [x for n in order[:2] for x in (f"I:{n}:bool:{r.randint(0, 1)}", "C:t0", "C:t1", "C:t2")] + [f"I:{order[0]}:bool:{r.randint(0, 1)}", "C:t0", "C:t1", "C:t2"]
         else: ops = [x for n in order[:2] for x in (f"I:{n}:{r.choice(['raw', 'clo'])}:{r.randint(0, 3)}", "C:t0", "C:t1", "C:t2")]
         lts = [ops]
         return f"{hid} {','.join(decl + names + ['fk0', 'fk1', 'fk2', 'fk3'])} " + "|".join(",".join(o) for o in lts), lts
